@@ -171,10 +171,11 @@ def hasSub (pat : Str) : Str → Bool
   | [] => pat.isEmpty
   | c :: cs => pat.isPrefixOf (c :: cs) || hasSub pat cs
 
-/-- texts outside the modelled part of strconv: digit separators, hex floats, inf/nan -/
+/-- texts outside the modelled part of strconv: digit separators, hex floats ("inf"/"nan" are parse errors since ccc6020,
+as in the model's decimal grammar) -/
 def exoticNumberText (s : Str) : Bool :=
   let l := s.map lowerC
-  l.contains '_' || hasSub "0x".toList l || hasSub "inf".toList l || hasSub "nan".toList l
+  l.contains '_' || hasSub "0x".toList l
 
 def leafKind : Leaf → String
   | .prim _ => "prim" | .arr _ _ _ _ => "arr" | .obj _ _ _ => "obj" | .deep _ _ => "deep" | .untyped _ => "untyped"
@@ -187,7 +188,7 @@ def collisionOK (props : List (List Str × List Str)) : Bool :=
   dups.isEmpty || (dups.length = 2 && dups.all (fun a => a.2.length = 1))
 
 def deepSupportedD (name : Str) (r : Req) (sprops : List (Str × DS)) : Bool :=
-  (deepProps name r.query).all (deepSupportedKey sprops) && collisionOK (deepProps name r.query)
+  (deepProps name (strictReq name r).query).all (deepSupportedKey sprops) && collisionOK (deepProps name (strictReq name r).query)
 
 def unsupportedLeaf (c : Cell) (name : Str) (r : Req) : Leaf → Bool
   | .deep sp _ => c.style = .deepObject && !deepSupportedD name r sp
@@ -241,7 +242,7 @@ def handleNest (j : Json) : Json :=
   let r := parseReq j
   let r2 : Req := { r with query := r.query.reverse }
   let dec (fl : Flavour) (rq : Req) : NOut :=
-    if rq.query.isEmpty then ⟨none, false, none⟩ else queryNest fl.prim fl.presenceAware name (fl.deepReq name rq) props req addl
+    if rq.query.isEmpty then ⟨none, false, none⟩ else queryNest fl.prim name (strictReq name rq) props req addl
   let om := dec impl r
   let om2 := dec impl r2
   let os := dec spec r
@@ -249,12 +250,10 @@ def handleNest (j : Json) : Json :=
   let vm2 := validateNest impl enumHitImpl p r2
   let vs := validateNest spec enumHitSpec p r
   let hasAlt := !noutSame om om2 || vm2 != vm
-  let dp := deepProps name r.query
-  let pc : Param := ⟨⟨.query, .deepObject, true⟩, name, p.required, p.allowEmpty, .leaf (.prim { t := .string })⟩
+  let dp := deepProps name (strictReq name r).query
+  let junk := r.query.any (fun kv => !wellFormedKey name kv.1)
   let excl :=
-    (if nsEnumInt32 (.obj props req addl) then ["EnumGoType"] else []) ++
-    (if props.isEmpty && addl.isSome then ["QueryObjNoProps"] else []) ++
-    (if DeepKeyJunk pc r then ["DeepKeyJunk"] else [])
+    (if nsEnumInt32 (.obj props req addl) then ["EnumGoType"] else [])
   let unsupported := !collisionOK dp || dp.any (fun kv => kv.1.any (fun s => s.isEmpty || oddIndex s)) ||
     (reqStrings r).any exoticNumberText
   let maxSegs := (dp.map (fun kv => kv.1.length)).foldl Nat.max 0
@@ -263,6 +262,7 @@ def handleNest (j : Json) : Json :=
      s!"verdict.{verdictStr vm}", (if om.found then "found" else "notfound"),
      (match om.val with | none => "val.nilmap" | some [] => "val.emptyobj" | some _ => "val.nest")] ++
     (if hasAlt then ["deep.orderDependent"] else []) ++
+    (if junk then ["deep.junkKeySkipped"] else []) ++
     (if unsupported then ["unsupported.notCompared"] else ["nest.compared", s!"nest.verdict.{verdictStr vm}"]) ++
     (if vm ≠ vs then ["model≠spec"] else [])
   jobj [
@@ -307,16 +307,16 @@ def handleContent (j : Json) : Json :=
   let sch : Option Sch := if sj.isNull then none else some (parseSch sj)
   let p : CParam := ⟨loc, name, getBool j "required", getBool j "allowEmpty", (getArr j "media").map (fun m => chars (asStr m)), sch⟩
   let r := parseReq j
-  let vm := validateContent unmText (visitSch enumHitImpl deepEqImpl) false p r
-  let vs := validateContent unmText (visitSch enumHitSpec enumHitSpec) true p r
+  let vm := validateContent unmText (visitSch enumHitImpl deepEqImpl) p r
+  let vs := validateContent unmText (visitSch enumHitSpec enumHitSpec) p r
   let vals := (contentValues loc name r).getD []
   -- several values: every item must be a scalar for the model's `Val.arr`
   let itemNotScalar (t : Str) : Bool := match Json.parse (text t) with
     | .ok j => (scalarPV j).isNone
     | .error _ => false
   let unsupported := vals.any unsupportedJSON || (vals.length ≠ 1 && vals.any itemNotScalar)
-  let outKind := match decodeContent unmText true p r with
-    | .absent => "absent" | .err => "error" | .missingErr => "missingErr"
+  let outKind := match decodeContent unmText p r with
+    | .absent => "absent" | .err => "error"
     | .val .nil => "null" | .val (.prim (.str _)) => "string" | .val (.prim _) => "scalar" | .val (.arr _) => "array" | .val _ => "object"
   let branches :=
     ["mode.content", s!"content.in.{getStr j "in"}", s!"content.values.{min vals.length 3}", s!"content.decoded.{outKind}",
@@ -327,12 +327,16 @@ def handleContent (j : Json) : Json :=
     ("model", jobj [("value", Json.null), ("found", Json.bool (contentValues loc name r).isSome), ("err", Json.null), ("verdict", verdictStr vm)]),
     ("spec", jobj [("value", Json.null), ("found", Json.bool (contentValues loc name r).isSome), ("err", Json.null), ("verdict", verdictStr vs),
                    ("enc_ok", Json.bool true), ("oracle", Json.bool false), ("decode_agrees", Json.bool true)]),
-    ("excl", jstrs ((if ContentMissing p r then ["ContentMissing"] else []) ++ (if ContentCookieAbsent p r then ["ContentCookieAbsent"] else []))),
+    ("excl", jstrs []),
     ("unsupported", Json.bool unsupported),
     ("branches", jstrs branches)]
 
 def handleFlat (j : Json) : Json :=
-  let cell : Cell := ⟨parseLoc (getStr j "in"), parseSty (getStr j "style"), getBool j "explode"⟩
+  -- the document may leave out style, explode or both ("useDefaults"): the cell is what SerializationMethod makes of it
+  let omitS := getBool j "omitStyle" || getBool j "useDefaults"
+  let omitE := getBool j "omitExplode" || getBool j "useDefaults"
+  let cell : Cell := smOf (parseLoc (getStr j "in")) (if omitS then none else some (parseSty (getStr j "style")))
+    (if omitE then none else some (getBool j "explode"))
   let name := chars (getStr j "name")
   let sch := parseSch (getD j "schema" .null)
   let p : Param := ⟨cell, name, getBool j "required", getBool j "allowEmpty", sch⟩
@@ -347,7 +351,8 @@ def handleFlat (j : Json) : Json :=
   let r2 : Req := { r with query := r.query.reverse }
   let om2 := decodeStyled impl cell name p.required r2 sch
   let vm2 := if resp then vm else validateParameter p r2
-  let hasAlt := cell.style == .deepObject && cell.loc == .query && (om2 != om || vm2 != vm)
+  let outSame (a b : Out) : Bool := (valJson a.val).compress == (valJson b.val).compress && a.found == b.found && a.err == b.err
+  let hasAlt := cell.style == .deepObject && cell.loc == .query && (!outSame om2 om || vm2 != vm)
   let texts := parseTexts j
   -- the round-trip oracle: for a leaf schema and encodable texts the specification's value is the value that was serialised
   let oracle : Option Val := match texts, sch with
@@ -360,9 +365,6 @@ def handleFlat (j : Json) : Json :=
   let excl :=
     (if CookieExplode p then ["CookieExplode"] else []) ++
     (if EnumGoType p then ["EnumGoType"] else []) ++
-    (if QueryObjAbsent p r then ["QueryObjAbsent"] else []) ++
-    (if QueryObjNoProps p then ["QueryObjNoProps"] else []) ++
-    (if DeepKeyJunk p r then ["DeepKeyJunk"] else []) ++
     (if UntypedSchema p then ["UntypedSchema"] else []) ++
     []
   let unsupported := (schLeaves sch).any (unsupportedLeaf cell name r) ||
@@ -377,6 +379,7 @@ def handleFlat (j : Json) : Json :=
     [valBranch om.val] ++
     (if oracle.isSome then ["roundtrip"] else []) ++
     (if earlyAbsent cell r then ["early.absent"] else []) ++
+    (if omitS && omitE then ["sm.bothDefaulted"] else if omitS then ["sm.styleDefaulted"] else if omitE then ["sm.explodeDefaulted"] else []) ++
     (if resp then ["mode.responseHeader"] else []) ++
     (if hasAlt then ["deep.orderDependent"] else []) ++
     (if unsupported then ["unsupported.notCompared"] else []) ++
